@@ -50,6 +50,17 @@ CLAIMED = {
          "That feeding documents to viper.MergeConfig in order yields a deep merge where the last one wins and single-source keys stay "
          "visible is a property of the third-party library (A-LIB), assumed, not proved; ArgsLoader's YAML rendering likewise. "
          "Configure is assumed wired with a non-nil binder and non-nil loaders (established by Default; not re-proved through options). " + TRUST),
+
+ "C14": ("proof",
+         "App.Close is verified with a fork/join rule: the goroutine body (closure) is verified on all paths against its thread contract "
+         "(closes exactly its own closer once, calls Done exactly once, also on the error path); the loop invariant counts forks and fixes "
+         "each thread's argument to the closer at its position; wg.Wait carries the obligation Added == number of forked threads and only "
+         "after it may the threads' postconditions be assumed, so [every-closer-once] and [nothing-else-closed] are provable only if Close "
+         "waits for all of them. Holds for every number of closers and every schedule (threads are composed by contract, not by interleaving).",
+         "DESIGN.md section 5 C14 and section 2.7",
+         "contract-based deductive verification with a fork/join rule (govc WP over go/ssa, z3/cvc5)",
+         "sync.WaitGroup by its trusted contract (A-WG, Go memory model); a closer that never returns makes Wait block (the statement's 'waits "
+         "for all' still holds); panics inside user Close methods are outside the contract; non-nil injected closers is a precondition. " + TRUST),
 }
 
 NOT_APPLICABLE = {
